@@ -5,7 +5,11 @@ R=${1:-/repo}
 export GOPROXY=off GOSUMDB=off GOTOOLCHAIN=local GOFLAGS=
 rc=0
 for m in . ./exp ./zapgrpc/internal/test; do
-  out=$(cd "$R/$m" && go test -mod=mod -vet=off -count=1 -timeout 25m ./... 2>&1) || { rc=1; echo "$out" | grep -v '^ok\|no test files'; }
+  out=$(cd "$R/$m" && go test -mod=mod -vet=off -count=1 -timeout 25m ./... 2>&1) || {
+    # zap's own suite has a few timing-sensitive tests (e.g. TestSamplerConcurrent) that fail on a loaded machine: retry once
+    sleep 5
+    out=$(cd "$R/$m" && go test -mod=mod -vet=off -count=1 -timeout 25m ./... 2>&1) || { rc=1; echo "$out" | grep -v '^ok\|no test files'; }
+  }
 done
 [ $rc = 0 ] && echo "BASELINE OK" || echo "BASELINE FAILED"
 exit $rc
